@@ -79,7 +79,7 @@ def describe(tier):
         rule='E2xE4: operator skeletons (no repeaters) with (elements, group depth) bounds x element kinds %s (xsl syntax: %s) x all '
              'option sets with <= d deviations over %s x syntaxes: (n, groups, kind set, d, syntaxes) in %s. '
              'Attribute-forms sweep: elements carrying each (pair) of the forms %s, in every syntax, under every option set with <= 1 '
-             'deviation, and the same parsed tree formatted twice. Transition = one production / one option toggle.' % (
+             'deviation, and the same parsed tree formatted twice; the calls of a shard share one cache dict and the option sets are visited in an order that rotates from shard to shard. Transition = one production / one option toggle.' % (
                  list(KINDS), list(XSL_KINDS), list(OPTION_SPACE), b['sweeps'], ATTR_FORMS),
         nontrivial='at least one option deviates from the default (two outputs are compared).',
         bounds=b,
